@@ -23,7 +23,8 @@ func init() { register(applyStream{}) }
 func (applyStream) Name() string          { return "apply" }
 func (applyStream) TrivialTags() []string { return []string{"applied"} }
 
-const applyRoot = "/tmp/cdi-verif-apply"
+// per-process scratch root: concurrent runs of the harness must not share a tree
+var applyRoot = scratchRoot("/tmp/cdi-verif-apply")
 
 // host nodes available to the edits: name -> (kind, major, minor)
 type hostNode struct {
